@@ -54,6 +54,12 @@ func witnesses() map[string]Case {
 	c.Items = []Item{{E: *agg("sum", "x"), Form: "agg"}}
 	c.Having = &Having{Atoms: []Atom{{E: agg("sum", "x * 2"), Cmp: ">", Lit: "6"}}}
 	w[fHavingExprAg] = c
+	c = base()
+	c.SelectG = false
+	c.Distinct = true
+	c.Items = []Item{{E: *agg("count", "*"), Form: "agg"}}
+	c.Having = &Having{Atoms: []Atom{{E: agg("max", "x"), Cmp: ">", Lit: "0"}}}
+	w[fDistinctHid] = c
 	return w
 }
 
